@@ -1,8 +1,347 @@
 import Sigc.Basic
-/-! component model `Trk` — see DESIGN.md §3.2 (stub, replaced by the real model) -/
+/-!
+  Component model `Trk` — `sigc::trackable` and `sigc::internal::trackable_callback_list`
+  (`/repo/sigc++/trackable.h`, `/repo/sigc++/trackable.cc`), DESIGN.md §3.2 / §5 C16.
+
+  Every C++ function has one Lean function of the same name and shape:
+
+  | C++                                              | Lean                         |
+  |--------------------------------------------------|------------------------------|
+  | `trackable::callback_list()`                     | `getList`                    |
+  | `trackable_callback_list::add_callback`          | `CbList.addCallback`         |
+  | `trackable_callback_list::remove_callback`       | `removeLoop` / `CbList.removeCallback` |
+  | `trackable_callback_list::~trackable_callback_list` (range-for over the `std::list`) | `roundLoop` (node-based iterator: look the current node up, call it, step to its successor) |
+  | the loop body `if (callback.func_) callback.func_(callback.data_)` + the user callback | `callEntry` / `runBody` / `bodyStep` |
+  | `trackable::add_destroy_notify_callback`         | `addDestroyNotify`           |
+  | `trackable::remove_destroy_notify_callback`      | `removeDestroyNotify`        |
+  | `trackable::notify_callbacks`                    | `notifyCallbacks`            |
+  | ctor / copy-ctor / move-ctor / `operator=` (both) / dtor | the cases of `exec`  |
+
+  `trackable_callback_list::clear()` has no caller in the library and is not reachable through
+  `trackable`'s public interface; it is not modelled.
+
+  What would be undefined behaviour in C++ is an explicit error state:
+  * `iterInvalid`  — the node the destructor's iterator stands on is no longer in the list when the
+                     iterator is dereferenced / incremented (it was erased while iterated);
+  * `doubleDelete` — `notify_callbacks()` on a trackable whose list is being destroyed
+                     (`delete callback_list_` a second time);
+  * `fuel`         — the iteration did not reach `end()` within `length` steps (cannot happen, proved).
+
+  Ghost data (not in the C++): `Entry.reg`, `State.nextReg` (a unique id per `add`), `State.trace`.
+  No proofs in this file.
+-/
 namespace Sigc.Trk
 
+/-- `trackable_callback {data_, func_}`; `func = none` is `func_ == nullptr`; `some k` = user callback `k` -/
+structure Entry where
+  data : Nat
+  func : Option Nat
+  reg  : Nat
+deriving Repr, DecidableEq
+
+/-- `trackable_callback_list {callbacks_, clearing_}` -/
+structure CbList where
+  entries  : List Entry
+  clearing : Bool
+deriving Repr, DecidableEq
+
+/-- `trackable {callback_list_}` (`none` = `nullptr`) -/
+structure Trackable where
+  cbs : Option CbList
+deriving Repr, DecidableEq
+
+inductive Err
+  | iterInvalid | doubleDelete | fuel
+deriving Repr, DecidableEq
+
+/-- trace events (ghost).  `trig t … done t` brackets one execution of `notify_callbacks()` on `t`. -/
+inductive Ev
+  | add (r t d : Nat)       -- `add_destroy_notify_callback(d, …)` called on `t`; the call is registration `r`
+  | rem (t d : Nat)         -- `remove_destroy_notify_callback(d)` called on `t`
+  | trig (t : Nat)          -- a triggering event on `t` begins
+  | deliver (r d k : Nat)   -- callback `k` is called with data `d` for registration `r`
+  | done (t : Nat)          -- the triggering event on `t` is over
+deriving Repr, DecidableEq
+
+/-- what a user callback does when it is delivered; all on the trackable being notified -/
+inductive BodyOp
+  | rem (d : Nat)
+  | add (d k : Nat)         -- outside C16's domain (silently ignored by the code)
+  | notify                  -- outside C16's domain (double delete)
+deriving Repr, DecidableEq
+
+/-- top-level operations; trackables are named by small numbers -/
+inductive Op
+  | new (t : Nat)                 -- `t = new trackable()`
+  | add (t d k : Nat)             -- `t->add_destroy_notify_callback(data d, callback k)`
+  | rem (t d : Nat)               -- `t->remove_destroy_notify_callback(data d)`
+  | copyCtor (src dst : Nat)      -- `dst = new trackable(*src)`
+  | moveCtor (src dst : Nat)      -- `dst = new trackable(std::move(*src))`
+  | assign (dst src : Nat)        -- `*dst = *src`            (dst = src: self assignment)
+  | moveAssign (dst src : Nat)    -- `*dst = std::move(*src)` (dst = src: self assignment)
+  | notify (t : Nat)              -- `t->notify_callbacks()`
+  | del (t : Nat)                 -- `delete t`
+deriving Repr, DecidableEq
+
+structure State where
+  objs    : Nat → Option Trackable      -- `none`: no live object of that name
+  nextReg : Nat
+  trace   : List Ev
+  err     : Option Err
+
+def State.init : State := ⟨fun _ => none, 0, [], none⟩
+def State.upd (s : State) (t : Nat) (o : Option Trackable) : State :=
+  { s with objs := fun x => if x = t then o else s.objs x }
+def State.emit (s : State) (e : Ev) : State := { s with trace := s.trace ++ [e] }
+def State.fail (s : State) (e : Err) : State := { s with err := some e }
+def State.alive (s : State) (t : Nat) : Bool := (s.objs t).isSome
+
+/-- `trackable::callback_list()`: the list, lazily allocated -/
+def getList (o : Trackable) : CbList := o.cbs.getD ⟨[], false⟩
+
+/-- `trackable_callback_list::add_callback` -/
+def CbList.addCallback (l : CbList) (d k r : Nat) : CbList :=
+  if l.clearing then l else { l with entries := l.entries ++ [⟨d, some k, r⟩] }
+
+/-- the `for` loop of `trackable_callback_list::remove_callback`: first entry with that data and a
+    non-null function; nulled while clearing, erased otherwise -/
+def removeLoop (clearing : Bool) (d : Nat) : List Entry → List Entry
+  | [] => []
+  | e :: es =>
+    if e.data = d ∧ e.func.isSome = true then
+      (if clearing then { e with func := none } :: es else es)
+    else e :: removeLoop clearing d es
+
+def CbList.removeCallback (l : CbList) (d : Nat) : CbList :=
+  { l with entries := removeLoop l.clearing d l.entries }
+
+/-- `trackable::add_destroy_notify_callback` -/
+def addDestroyNotify (t d k : Nat) (s : State) : State :=
+  match s.objs t with
+  | none => s
+  | some o =>
+    let r := s.nextReg
+    (({ s with nextReg := r + 1 }).emit (.add r t d)).upd t (some ⟨some ((getList o).addCallback d k r)⟩)
+
+/-- `trackable::remove_destroy_notify_callback` -/
+def removeDestroyNotify (t d : Nat) (s : State) : State :=
+  match s.objs t with
+  | none => s
+  | some o => (s.emit (.rem t d)).upd t (some ⟨some ((getList o).removeCallback d)⟩)
+
+abbrev Scripts := Nat → List BodyOp
+
+def bodyStep (t : Nat) : BodyOp → State → State
+  | .rem d, s => removeDestroyNotify t d s
+  | .add d k, s => addDestroyNotify t d k s
+  | .notify, s => s.fail .doubleDelete      -- `delete callback_list_` while its destructor runs
+
+/-- the body of a user callback -/
+def runBody (t : Nat) : List BodyOp → State → State
+  | [], s => s
+  | b :: bs, s => if s.err.isSome then s else runBody t bs (bodyStep t b s)
+
+def entriesOf (s : State) (t : Nat) : List Entry :=
+  match s.objs t with
+  | some ⟨some l⟩ => l.entries
+  | _ => []
+
+/-- `++it` on a `std::list` iterator standing on node `r`:
+    `none` = the node is not in the list (dangling), `some none` = `end()` -/
+def succOf (r : Nat) : List Entry → Option (Option Nat)
+  | [] => none
+  | e :: es => if e.reg = r then some (es.head?.map (·.reg)) else succOf r es
+
+/-- `if (callback.func_) callback.func_(callback.data_);` -/
+def callEntry (sc : Scripts) (t : Nat) (e : Entry) (s : State) : State :=
+  match e.func with
+  | none => s
+  | some k => runBody t (sc k) (s.emit (.deliver e.reg e.data k))
+
+/-- the loop of `~trackable_callback_list`, `cur` = the node the iterator stands on (`none` = `end()`) -/
+def roundLoop (sc : Scripts) : Nat → Nat → Option Nat → State → State
+  | _, _, none, s => s
+  | 0, _, some _, s => s.fail .fuel
+  | f + 1, t, some r, s =>
+    match (entriesOf s t).find? (fun e => e.reg == r) with
+    | none => s.fail .iterInvalid
+    | some e =>
+      let s1 := callEntry sc t e s
+      if s1.err.isSome then s1 else
+      match succOf r (entriesOf s1 t) with
+      | none => s1.fail .iterInvalid
+      | some nxt => roundLoop sc f t nxt s1
+
+/-- `trackable::notify_callbacks`: `delete callback_list_; callback_list_ = nullptr;` -/
+def notifyCallbacks (sc : Scripts) (t : Nat) (s : State) : State :=
+  match s.objs t with
+  | none => s
+  | some o =>
+    match o.cbs with
+    | none => (s.emit (.trig t)).emit (.done t)
+    | some l =>
+      if l.clearing then s.fail .doubleDelete else
+      let s1 := (s.emit (.trig t)).upd t (some ⟨some { l with clearing := true }⟩)
+      let s2 := roundLoop sc l.entries.length t (l.entries.head?.map (·.reg)) s1
+      if s2.err.isSome then s2 else (s2.upd t (some ⟨none⟩)).emit (.done t)
+
+/-- the names an operation needs alive / free; otherwise it is skipped on both sides -/
+def Op.ok (s : State) : Op → Bool
+  | .new t => !s.alive t
+  | .add t _ _ => s.alive t
+  | .rem t _ => s.alive t
+  | .copyCtor src dst => s.alive src && !s.alive dst
+  | .moveCtor src dst => s.alive src && !s.alive dst
+  | .assign dst src => s.alive dst && s.alive src
+  | .moveAssign dst src => s.alive dst && s.alive src
+  | .notify t => s.alive t
+  | .del t => s.alive t
+
+def exec (sc : Scripts) : Op → State → State
+  | .new t, s => s.upd t (some ⟨none⟩)
+  | .add t d k, s => addDestroyNotify t d k s
+  | .rem t d, s => removeDestroyNotify t d s
+  | .copyCtor _ dst, s => s.upd dst (some ⟨none⟩)
+  | .moveCtor src dst, s => notifyCallbacks sc src (s.upd dst (some ⟨none⟩))
+  | .assign dst src, s => if dst ≠ src then notifyCallbacks sc dst s else s
+  | .moveAssign dst src, s =>
+    if dst ≠ src then
+      let s1 := notifyCallbacks sc dst s
+      if s1.err.isSome then s1 else notifyCallbacks sc src s1
+    else s
+  | .notify t, s => notifyCallbacks sc t s
+  | .del t, s =>
+    let s1 := notifyCallbacks sc t s
+    if s1.err.isSome then s1 else s1.upd t none
+
+def step (sc : Scripts) (op : Op) (s : State) : State :=
+  if s.err.isSome then s else if op.ok s then exec sc op s else s
+
+def runFrom (sc : Scripts) (ops : List Op) (s : State) : State := ops.foldl (fun s op => step sc op s) s
+
+structure History where
+  scripts : List (List BodyOp)
+  ops     : List Op
+deriving Repr, DecidableEq
+
+def History.sc (h : History) : Scripts := fun k => h.scripts.getD k []
+
+def BodyOp.isRem : BodyOp → Bool
+  | .rem _ => true
+  | _ => false
+
+/-- C16's domain (DESIGN §2/§5): callbacks only remove registrations — no `add`, no nested
+    `notify_callbacks()` from inside a delivery round -/
+def History.Domain (h : History) : Bool := h.scripts.all (fun b => b.all BodyOp.isRem)
+
+def run (h : History) : State := runFrom h.sc h.ops State.init
+
+/-! ### trace vocabulary of the property statement (logical, knows nothing of the mechanism) -/
+
+/-- effect of one event on the logical registration list of trackable `t`: `(registration id, data)` -/
+def stepP (t : Nat) (l : List (Nat × Nat)) : Ev → List (Nat × Nat)
+  | .add r t' d => if t' = t then l ++ [(r, d)] else l
+  | .rem t' d => if t' = t then l.eraseP (fun x => x.2 == d) else l     -- first one with that data
+  | .done t' => if t' = t then [] else l
+  | _ => l
+
+/-- the registrations of `t` after the events `tr`: added to `t`, not matched by a `remove`,
+    and no triggering event on `t` completed since -/
+def present (t : Nat) (tr : List Ev) : List (Nat × Nat) := tr.foldl (stepP t) []
+
+def stepR (c : Option Nat) : Ev → Option Nat
+  | .trig t => some t
+  | .done _ => none
+  | _ => c
+
+/-- the trackable whose triggering event is in progress after `tr` -/
+def inRound (tr : List Ev) : Option Nat := tr.foldl stepR none
+
+def delivered (tr : List Ev) : List Nat :=
+  tr.filterMap fun | .deliver r _ _ => some r | _ => none
+
+def added (tr : List Ev) : List Nat :=
+  tr.filterMap fun | .add r _ _ => some r | _ => none
+
+/-! ### driver: text → history → canonical result -/
+
+def parseNats (s : String) : Option (List Nat) := (s.splitOn ".").mapM String.toNat?
+
+def parseBodyOp (w : String) : Option BodyOp :=
+  match w.toList with
+  | 'r' :: rest => match parseNats (String.ofList rest) with
+    | some [d] => some (.rem d)
+    | _ => none
+  | 'a' :: rest => match parseNats (String.ofList rest) with
+    | some [d, k] => some (.add d k)
+    | _ => none
+  | ['n'] => some .notify
+  | _ => none
+
+def parseOp (w : String) : Option Op :=
+  match w.toList with
+  | c :: rest =>
+    match c, parseNats (String.ofList rest) with
+    | 'N', some [t] => some (.new t)
+    | 'A', some [t, d, k] => some (.add t d k)
+    | 'R', some [t, d] => some (.rem t d)
+    | 'C', some [a, b] => some (.copyCtor a b)
+    | 'M', some [a, b] => some (.moveCtor a b)
+    | 'E', some [a, b] => some (.assign a b)
+    | 'V', some [a, b] => some (.moveAssign a b)
+    | 'F', some [t] => some (.notify t)
+    | 'D', some [t] => some (.del t)
+    | _, _ => none
+  | [] => none
+
+/-- `k<k>:<b>,<b>,…` defines the body of callback `k`; every other word is an operation -/
+def parseWord (h : History) (w : String) : Option History :=
+  match w.toList with
+  | 'k' :: rest =>
+    match (String.ofList rest).splitOn ":" with
+    | [ks, body] =>
+      match ks.toNat?, ((body.splitOn ",").filter (· ≠ "")).mapM parseBodyOp with
+      | some k, some b =>
+        if k = h.scripts.length then some { h with scripts := h.scripts ++ [b] } else none
+      | _, _ => none
+    | _ => none
+  | _ => (parseOp w).map fun op => { h with ops := h.ops ++ [op] }
+
+def parseHistory (line : String) : Option History :=
+  (words line).foldlM parseWord ⟨[], []⟩
+
+def Op.names : Op → List Nat
+  | .new t | .add t _ _ | .rem t _ | .notify t | .del t => [t]
+  | .copyCtor a b | .moveCtor a b | .assign a b | .moveAssign a b => [a, b]
+
+def renderEvs (evs : List Ev) : String :=
+  let ds := evs.filterMap fun
+    | .deliver _ d k => some (toString d ++ ":" ++ toString k)
+    | _ => none
+  if ds.isEmpty then "-" else ",".intercalate ds
+
+/-- run op by op; one token per op: `x` skipped, `ERR`, or the deliveries it caused (`-` = none) -/
+def runOut (sc : Scripts) : List Op → State → List String → State × List String
+  | [], s, out => (s, out)
+  | op :: ops, s, out =>
+    let s' := step sc op s
+    let tok :=
+      if s'.err.isSome then "ERR"
+      else if !op.ok s then "x"
+      else renderEvs (s'.trace.drop s.trace.length)
+    runOut sc ops s' (out ++ [tok])
+
+def processHistory (h : History) : String :=
+  let (s, out) := runOut h.sc h.ops State.init []
+  -- teardown: destroy what is still alive, ascending names; shows what was still registered
+  let top := (h.ops.flatMap Op.names).foldl max 0
+  let (_, out2) := runOut h.sc ((List.range (top + 1)).map Op.del) s []
+  " ".intercalate (out ++ ["#"] ++ out2)
+
 /-- one driver case per input line → one output line -/
-def processLine (line : String) : String := "unimplemented " ++ line
+def processLine (line : String) : String :=
+  match parseHistory line with
+  | none => "parse-error"
+  | some h => processHistory h
 
 end Sigc.Trk
